@@ -59,6 +59,7 @@ type desc struct {
 	Plan      string    `json:"plan"`
 	Burst     bool      `json:"burst,omitempty"`
 	Overflow  bool      `json:"three_back_to_back,omitempty"`
+	Long      int       `json:"long_prefix,omitempty"` // number of timeout pre-responses of a long-history script
 }
 
 // ---- payload catalogue ----
@@ -890,6 +891,9 @@ func runOne(e *env, d *desc) (Case, []ImplViolation) {
 	if d.Overflow {
 		cs.Tags = append(cs.Tags, "inbox-overflow")
 	}
+	if d.Long > 0 {
+		cs.Tags = append(cs.Tags, fmt.Sprintf("long:%d", d.Long))
+	}
 	return cs, impl
 }
 
@@ -1009,8 +1013,67 @@ func genService(r *Rng, id int, dist map[string]int) *desc {
 	return d
 }
 
+// ---- long histories on the real-NATS legs: behaviour must not change after N messages ----
+// n timeout pre-responses with long announced durations (every one moves the deadline far beyond
+// the end of the script, so nothing here is timing-sensitive), then the response.  spaced: 4 ms
+// apart, any n; burst: all n+1 messages back to back, n+1 <= inboxCap (what the unchanged code
+// guarantees to take without loss).
+const inboxCap = 32 // resprot.inboxChannelSize
+const longSpacingMs = 4
+
+var longAnnounce = []int64{3000, 3200, 2800}
+
+func genLong(r *Rng, id int, mode string, n int, burst bool, dist map[string]int) *desc {
+	d := &desc{Mode: mode, ID: id, Ncb: 1 + r.Intn(2), Req: "nil", TimeoutMs: 400, Plan: "answer", Long: n, Burst: burst}
+	gap := int64(longSpacingMs)
+	if burst {
+		gap = 0
+	}
+	at := int64(gridMs)
+	kind := "spaced"
+	if burst {
+		kind = "burst"
+	}
+	dist[fmt.Sprintf("%s:long-%s", mode, kind)]++
+	if mode == "service" {
+		d.Req = "steps"
+		d.Steps = append(d.Steps, step{Op: "sleep", Ms: at})
+		for i := 0; i < n; i++ {
+			d.Steps = append(d.Steps, step{Op: "timeout", Ms: longAnnounce[i%len(longAnnounce)]})
+			if gap > 0 {
+				d.Steps = append(d.Steps, step{Op: "sleep", Ms: gap})
+			}
+		}
+		d.Steps = append(d.Steps, step{Op: r.Pick([]string{"ok", "ok", "notfound", "error", "resource"}), I: id})
+		return d
+	}
+	for i := 0; i < n; i++ {
+		p := fmt.Sprintf(`timeout:"%d"`, longAnnounce[i%len(longAnnounce)])
+		d.Arr = append(d.Arr, arrival{AtMs: at, Payload: []byte(p), Text: fmt.Sprintf("%q", p)})
+		at += gap
+	}
+	p := fmt.Sprintf(`{"result":{"long":%d}}`, id)
+	d.Arr = append(d.Arr, arrival{AtMs: at, Payload: []byte(p), Text: fmt.Sprintf("%q", p)})
+	return d
+}
+
+func longCounts(r *Rng, tier string) (spaced, burst []int) {
+	spaced = []int{0, 1, 2, 31, 32, 33, 40, 64, 100}
+	burst = []int{2, 8, 16, inboxCap - 2, inboxCap - 1}
+	if tier == "thorough" {
+		spaced = append(spaced, 15, 16, 17, 30, 34, 63, 65, 127, 128, 129, 200, 255, 256, 257, 300)
+		for i := 0; i < 12; i++ {
+			spaced = append(spaced, 3+r.Intn(298))
+		}
+		for k := 3; k < inboxCap-2; k += 3 {
+			burst = append(burst, k)
+		}
+	}
+	return
+}
+
 // two announcements and the response back to back: three messages reach the client connection
-// faster than SendRequest takes them off its inbox channel (capacity 1)
+// faster than a capacity-1 inbox channel could take them (the defect fixed by c11361e)
 func genOverflow(r *Rng, id int, dist map[string]int) *desc {
 	d := &desc{Mode: "service", ID: id, Ncb: r.Intn(3), Req: "steps", TimeoutMs: 320, Plan: "answer", Burst: true, Overflow: true}
 	g := int64(1+r.Intn(3)) * gridMs
@@ -1107,6 +1170,20 @@ func main() {
 			ds = append(ds, genService(r, id, dist))
 			withService = true
 		}
+		{
+			spaced, burst := longCounts(r, o.Tier)
+			for _, mode := range []string{"nats-raw", "service"} {
+				for _, n := range spaced {
+					id++
+					ds = append(ds, genLong(r, id, mode, n, false, dist))
+				}
+				for _, n := range burst {
+					id++
+					ds = append(ds, genLong(r, id, mode, n, true, dist))
+				}
+			}
+			withService = true
+		}
 		if o.Tier == "thorough" && os.Getenv("VERIF_C19_OVERFLOW") != "0" {
 			for i := 0; i < 8; i++ {
 				id++
@@ -1180,6 +1257,6 @@ func main() {
 	}
 	dist["nontrivial"] = nontriv
 	Emit(o, "C19", "From GoRes Require Import Run.Run_C19.", "ccase",
-		"SendRequest against a scripted res.Conn over an embedded nats-server: 0-6 arrivals on a 40 ms grid mixing valid timeout pre-responses (incl. escapes, signs, int64 wrap-around, several tags), pre-responses without effect, result/resource/error responses and garbage; failing marshal/subscribe/publish; plus arrivals sent through the server and a real res.Service playing handler scripts (many more in thorough); every timer-vs-message decision >= 120 ms from a tie; non-trivial = a failing step or at least one pre-response in the script; distinct by script",
+		"SendRequest against a scripted res.Conn over an embedded nats-server: 0-6 arrivals on a 40 ms grid mixing valid timeout pre-responses (incl. escapes, signs, int64 wrap-around, several tags), pre-responses without effect, result/resource/error responses and garbage; failing marshal/subscribe/publish; plus arrivals sent through the server and a real res.Service playing handler scripts (many more in thorough), including long histories on both real-NATS legs: 0..100 (thorough ..300) timeout pre-responses 4 ms apart before the response, around every power of two and the inbox capacity 32, and back-to-back bursts up to that capacity; every timer-vs-message decision >= 120 ms from a tie; non-trivial = a failing step or at least one pre-response in the script; distinct by script",
 		cases, dist, extra, impl, 100)
 }
